@@ -174,7 +174,7 @@ pub fn build<Ef: SimEffect>(cmd: &Cmd, init: u64, h: &Handles, legacy: Option<&L
             let t = t.clone();
             let hs = h.clone();
             Command::new(move |ctx| async move {
-                interp_with::<Ef>(t, init, ctx, BTreeMap::new(), hs).await;
+                tracked(interp_with::<Ef>(t, init, ctx, BTreeMap::new(), hs)).await;
             })
         }
         Cmd::Abortable(hid, x) => {
@@ -194,6 +194,77 @@ pub fn build<Ef: SimEffect>(cmd: &Cmd, init: u64, h: &Handles, legacy: Option<&L
 
 // ------------------------------------------------------------------------------------------------
 // async task interpreter (command API)
+
+// ------------------------------------------------------------------------------------------------
+// order log: in which order the real tasks produced outputs and aborted commands (the reference model
+// polls tasks in its own order, so "was this output before or after that abort" can only be read off
+// the real execution)
+
+#[derive(Clone, Debug, PartialEq, Eq)]
+pub enum Order {
+    /// a command was aborted through handle `h`; `by` = (task instance, poll number) when a task did it
+    Abort { h: u32, by: Option<(u64, u64)> },
+    /// the task (or join/select branch) labelled `label` produced an output
+    Out { label: u32, at: (u64, u64), what: &'static str },
+}
+
+thread_local! {
+    static ORDER_LOG: std::cell::RefCell<Vec<Order>> = const { std::cell::RefCell::new(Vec::new()) };
+    static CUR_POLL: std::cell::Cell<(u64, u64)> = const { std::cell::Cell::new((0, 0)) };
+    static NEXT_TASK: std::cell::Cell<u64> = const { std::cell::Cell::new(1) };
+}
+
+pub fn order_log_reset() {
+    ORDER_LOG.with(|l| l.borrow_mut().clear());
+    NEXT_TASK.with(|n| n.set(1));
+    CUR_POLL.with(|c| c.set((0, 0)));
+}
+
+pub fn order_log_snapshot() -> Vec<Order> {
+    ORDER_LOG.with(|l| l.borrow().clone())
+}
+
+pub fn log_abort(h: u32) {
+    let at = CUR_POLL.with(std::cell::Cell::get);
+    ORDER_LOG.with(|l| l.borrow_mut().push(Order::Abort { h, by: if at.0 == 0 { None } else { Some(at) } }));
+}
+
+fn log_out(label: u32, what: &'static str) {
+    let at = CUR_POLL.with(std::cell::Cell::get);
+    ORDER_LOG.with(|l| {
+        let mut l = l.borrow_mut();
+        if l.len() < 100_000 {
+            l.push(Order::Out { label, at, what });
+        }
+    });
+}
+
+/// a task of a command: knows which task instance and which of its polls is running
+struct Tracked {
+    inner: BoxFuture<'static, u64>,
+    id: u64,
+    polls: u64,
+}
+
+fn tracked(inner: BoxFuture<'static, u64>) -> Tracked {
+    let id = NEXT_TASK.with(|n| {
+        let v = n.get();
+        n.set(v + 1);
+        v
+    });
+    Tracked { inner, id, polls: 0 }
+}
+
+impl Future for Tracked {
+    type Output = u64;
+    fn poll(mut self: Pin<&mut Self>, cx: &mut Context<'_>) -> Poll<u64> {
+        self.polls += 1;
+        let prev = CUR_POLL.with(|c| c.replace((self.id, self.polls)));
+        let r = self.inner.as_mut().poll(cx);
+        CUR_POLL.with(|c| c.set(prev));
+        r
+    }
+}
 
 struct YieldOnce(bool);
 impl Future for YieldOnce {
@@ -296,9 +367,11 @@ fn run_stmts<'a, Ef: SimEffect>(
         for s in stmts {
             match s {
                 Stmt::Request(leaf) => {
+                    log_out(env.em_label, "request");
                     env.acc = shell_request(leaf, env.acc, ctx).await;
                 }
                 Stmt::CapRequest(leaf) => {
+                    log_out(env.em_label, "capability request");
                     let caps = env.handles.caps.lock().unwrap().clone();
                     env.acc = match caps {
                         Some(l) => match leaf.op {
@@ -308,11 +381,30 @@ fn run_stmts<'a, Ef: SimEffect>(
                         None => shell_request(leaf, env.acc, ctx).await,
                     };
                 }
-                Stmt::Notify(leaf) => match leaf.op {
-                    OpKind::A => ctx.notify_shell(op_a(leaf, env.acc)),
-                    OpKind::B => ctx.notify_shell(op_b(leaf, env.acc)),
-                },
+                Stmt::Notify(leaf) => {
+                    log_out(env.em_label, "notification");
+                    match leaf.op {
+                        OpKind::A => ctx.notify_shell(op_a(leaf, env.acc)),
+                        OpKind::B => ctx.notify_shell(op_b(leaf, env.acc)),
+                    }
+                }
+                Stmt::Burst { n, tag } => {
+                    log_out(env.em_label, "burst of events");
+                    for _ in 0..*n {
+                        ctx.send_event(Event::Emitted(Emitted {
+                            tag: *tag,
+                            val: env.acc,
+                            trace: vec![],
+                            em_label: env.em_label,
+                            em_start: env.em_start,
+                            seq: env.seq,
+                            cont: None,
+                        }));
+                        env.seq += 1;
+                    }
+                }
                 Stmt::Emit { tag, cont } => {
+                    log_out(env.em_label, "event");
                     ctx.send_event(Event::Emitted(Emitted {
                         tag: *tag,
                         val: env.acc,
@@ -328,6 +420,9 @@ fn run_stmts<'a, Ef: SimEffect>(
                     // the stream lives exactly as long as this block
                     let mut stream = shell_stream(leaf, env.acc, ctx);
                     let mut n = 0u32;
+                    if take.map_or(true, |t| t > 0) {
+                        log_out(env.em_label, "stream request");
+                    }
                     while take.map_or(true, |t| n < t) {
                         match stream.next().await {
                             Some(v) => {
@@ -345,7 +440,7 @@ fn run_stmts<'a, Ef: SimEffect>(
                     let acc = env.acc;
                     let hs = env.handles.clone();
                     let handle = ctx.spawn(move |c| async move {
-                        interp_with::<Ef>(t, acc, c, BTreeMap::new(), hs).await;
+                        tracked(interp_with::<Ef>(t, acc, c, BTreeMap::new(), hs)).await;
                     });
                     if let Some(slot) = slot {
                         let h2 = handle.clone();
@@ -388,6 +483,7 @@ fn run_stmts<'a, Ef: SimEffect>(
                     }
                 }
                 Stmt::AwaitChain { first, stages } => {
+                    log_out(env.em_label, "request (chain)");
                     let b = apply_stages(Bld::R(request_builder::<Ef>(first, env.acc)), stages);
                     match b {
                         Bld::R(r) => env.acc = r.into_future(ctx.clone()).await,
@@ -404,6 +500,7 @@ fn run_stmts<'a, Ef: SimEffect>(
                 Stmt::AbortCmd(h) => {
                     let f = env.handles.lock().unwrap().get(h).cloned();
                     if let Some(f) = f {
+                        log_abort(*h);
                         f();
                     }
                 }
@@ -420,7 +517,7 @@ fn run_stmts<'a, Ef: SimEffect>(
                     let acc = env.acc;
                     let hs = env.handles.clone();
                     let handle = ctx.spawn(move |cx| async move {
-                        interp_full::<Ef>(t, acc, cx, BTreeMap::new(), hs, Some(end)).await;
+                        tracked(interp_full::<Ef>(t, acc, cx, BTreeMap::new(), hs, Some(end))).await;
                     });
                     if let Some(slot) = slot {
                         let h2 = handle.clone();
@@ -480,6 +577,20 @@ fn legacy_stmts<'a>(stmts: &'a [Stmt], env: &'a mut LEnv, ctx: &'a LegacyCtx) ->
                     OpKind::A => ctx.a.notify_shell(op_a(leaf, env.acc)).await,
                     OpKind::B => ctx.b.notify_shell(op_b(leaf, env.acc)).await,
                 },
+                Stmt::Burst { n, tag } => {
+                    for _ in 0..*n {
+                        ctx.a.update_app(Event::Emitted(Emitted {
+                            tag: *tag,
+                            val: env.acc,
+                            trace: vec![],
+                            em_label: env.em_label,
+                            em_start: env.em_start,
+                            seq: env.seq,
+                            cont: None,
+                        }));
+                        env.seq += 1;
+                    }
+                }
                 Stmt::Emit { tag, cont } => {
                     ctx.a.update_app(Event::Emitted(Emitted {
                         tag: *tag,
